@@ -137,6 +137,19 @@ impl Known {
                 }
             }
         }
+        // development aid: `VERIF_KNOWN_EXTRA="C02=sig-a;C02=sig-b"` steps over further signatures
+        // (never set by the registered commands)
+        if let Ok(extra) = std::env::var("VERIF_KNOWN_EXTRA") {
+            for item in extra.split(';') {
+                if let Some((p, sig)) = item.split_once('=') {
+                    findings.push(KnownFinding {
+                        property: p.trim().to_string(),
+                        sig: sig.trim().to_string(),
+                        what: "(development-only VERIF_KNOWN_EXTRA)".to_string(),
+                    });
+                }
+            }
+        }
         Known { findings }
     }
 
